@@ -35,20 +35,17 @@ class Mesh3D(Mesh):
     def boundary_edges(self) -> ndarray:
         """Return an array of boundary edge indices."""
         facets = self.boundary_facets()
-        boundary_edges = np.sort(np.hstack(
-            tuple([np.vstack((self.facets[itr, facets],
-                              self.facets[(itr + 1) % self.facets.shape[0],
-                              facets]))
-                   for itr in range(self.facets.shape[0])])).T, axis=1)
-        edge_candidates = np.unique(self.t2e[:, self.f2t[0, facets]])
-        A = self.edges[:, edge_candidates].T
-        B = boundary_edges
-        dims = A.max(0) + 1
-        ix = np.where(np.isin(
-            np.ravel_multi_index(A.T, dims),  # type: ignore
-            np.ravel_multi_index(B.T, dims),  # type: ignore
-        ))[0]
-        return edge_candidates[ix]
+        # an edge of the cell next to a boundary facet belongs to the facet
+        # if both of its end points do; this does not depend on the order
+        # in which the vertices of the facet are stored
+        corners = self.facets[:, facets]
+        found = []
+        for edges in self.t2e[:, self.f2t[0, facets]]:
+            both = np.ones(len(facets), dtype=bool)
+            for endpoint in self.edges[:, edges]:
+                both &= (corners == endpoint).any(axis=0)
+            found.append(edges[both])
+        return np.unique(np.concatenate(found))
 
     def interior_edges(self) -> ndarray:
         """Return an array of interior edge indices."""
